@@ -210,6 +210,13 @@ impl<'a> BTreeIterator<'a> {
 		log: &impl LogQuery,
 		direction: IterDirection,
 	) -> Result<Option<(Vec<u8>, Value)>> {
+		// Same sentinels as the commit overlay side: nothing before the start or after the end.
+		if matches!(
+			(&self.last_key, direction),
+			(LastKey::Start, IterDirection::Backward) | (LastKey::End, IterDirection::Forward)
+		) {
+			return Ok(None)
+		}
 		let BtreeIterBackend(tree, iter) = &mut self.iter;
 		if record_id != tree.record_id {
 			let new_tree = col.with_locked(|btree| BTree::open(btree, log, record_id))?;
